@@ -40,13 +40,13 @@ def norm_w(w, order):
     return t
 
 
-def run_c11(idx, sa, sb, order):
+def run_c11(idx, sa, sb, order, groups=("PURE",)):
     fi = idx.func("c11_cast")
     res = {}
 
     def once(interp):
-        a = mk_vt("a", sa, Sym("Wa"))
-        b = mk_vt("b", sb, Sym("Wb"))
+        a = mk_vt("a", sa, Sym("Wa"), groups)
+        b = mk_vt("b", sb, Sym("Wb"), groups)
         res["a"], res["b"] = a, b
         return interp.call_function(fi, [a, b])
 
@@ -119,11 +119,11 @@ def r04_6(ctx):
 @rule("R04.2", "C04", "c11_cast never stores to its arguments (ownership through aliases); results symmetric", min_instances=12)
 def r04_2(ctx):
     idx = get_index(ctx.env)
-    for sa in (True, False):
-        for sb in (True, False):
-            for order in ("<", "=", ">"):
-                fi, outs, objs = run_c11(idx, sa, sb, order)
-                key = f"c11_cast[a={'s' if sa else 'u'},b={'s' if sb else 'u'},Wa{order}Wb] argument stores"
+    for sa, sb, order, groups in [(sa, sb, order, g) for g in (("PURE",), ("PURE", "CONST"), ("PURE", "HYBRID_LVAR"), ("PURE", "BOOL")) for sa in (True, False) for sb in (True, False) for order in ("<", "=", ">")]:
+        if True:
+            if True:
+                fi, outs, objs = run_c11(idx, sa, sb, order, groups)
+                key = f"c11_cast[a={'s' if sa else 'u'},b={'s' if sb else 'u'},Wa{order}Wb{'' if groups == ('PURE',) else ',' + '|'.join(groups[1:])}] argument stores"
                 stores = []
                 arith = []
                 for o in outs:
